@@ -28,6 +28,18 @@ CHECKS = {
         note="Trusted: TLC, the tag translation, hook H2 re-exports. Bounds in spec/mc/Unify_*.cfg.",
         technique="TLA+ state machine of the union-find unifier vs reference Robinson unifier (TLC, all systems up to a bound) + per-system replay into the real unifier",
     ),
+    "C10": dict(
+        design_ref="DESIGN.md 3.5, 4 (C10)",
+        text="TLC model-checks Loader.tla (module::load as a state machine: one action per queue pop, import scan, link-or-load, "
+             "toposort, compile) over every import graph of 3 (quick) / 4 (thorough) modules with duplicates, self imports, cycles, "
+             "missing targets and syntactically broken modules: termination, load/parse/compile exactly once, imports compiled first, "
+             "verdict a function of the import sets. Every graph is rendered to module texts (canonical and aliased relative spellings) "
+             "and loaded by the real module::load with a recording loader: exact call sequences and verdict must match, the compile "
+             "order must be one the specification allows. Recorded call sequences of family graphs and of larger random graphs are "
+             "validated as behaviours by LoaderTrace.tla with every invariant checked on every state. Bounded, not a proof.",
+        note="Trusted: TLC, the rendering of graphs to `use` statements, the recording in-memory Loader. Which error is reported when several are present is not compared.",
+        technique="TLA+ state machine of module::load (TLC, all import graphs up to 4 modules) + spec->impl replay of every graph + impl->spec trace validation of recorded loader calls",
+    ),
 }
 
 PENDING_REASON = "check not built yet (work in progress; see DESIGN.md section 8 for the build order)"
